@@ -278,7 +278,7 @@ def _run_harness_shard(binary, cases, timeout_ms):
         p = subprocess.run([binary], input=data, stdout=subprocess.PIPE, stderr=subprocess.PIPE,
                            text=True, env=env)
         got = 0
-        for line in p.stdout.splitlines():
+        for line in p.stdout.split("\n"):
             line = line.strip()
             if not line.startswith("{"):
                 continue
@@ -354,7 +354,7 @@ def _run_model_shard(lines, ids):
                            stdout=subprocess.PIPE, stderr=subprocess.PIPE, text=True,
                            env=dict(os.environ, OCAMLRUNPARAM="l=4G", VERIF_MODEL_TIMEOUT_S=os.environ.get("VERIF_MODEL_TIMEOUT_S", "3")))
         got = 0
-        for line in p.stdout.splitlines():
+        for line in p.stdout.split("\n"):
             if "\t" not in line:
                 continue
             i, body = line.split("\t", 1)
@@ -378,7 +378,7 @@ def oracle(strs, binary=None):
     for chunk in _shards(strs, max(1, len(strs) // 5000 + 1)):
         req = json.dumps({"op": "oracle", "id": 0, "strs": chunk}, ensure_ascii=True) + "\n"
         p = subprocess.run([binary], input=req, stdout=subprocess.PIPE, text=True)
-        o = json.loads(p.stdout.splitlines()[0])
+        o = json.loads(p.stdout.split("\n")[0])
         for s, a, b, c in zip(chunk, o["int"], o["float"], o["bool"]):
             res[s] = (a, b, c)
     return res
